@@ -297,8 +297,19 @@ def run(prog: Program, rep: Report, tier: str):
     rep.rule("R14.3", "memoised decoders receive hashable carriers only", floor=1)
     rep.rule("R14.4", "strload fallback order and suppress coverage", floor=5)
     rep.rule("R14.5", "one encoding on all encode/decode sites", floor=2)
+    rep.rule("R14.6", "a memoryview carrier is decoded from the bytes of the view itself (shared with R04.10)", floor=1)
     r14_1(prog, rep)
     r14_2(prog, rep)
     r14_3(prog, rep)
     r14_4(prog, rep)
     r14_5(prog, rep)
+    from ..report import Report as _R, absorb
+    from . import c04
+
+    sub = _R("C14", tier)
+    sub.rule("R14.6", "", 0)
+    c04.r04_10(prog, sub, rule="R14.6")
+    for o in list(sub.obligations):
+        if not o.key.endswith("#memoryview"):
+            sub.obligations.remove(o)
+    absorb(rep, sub, {"R14.6": "R14.6"})
